@@ -1,0 +1,8 @@
+//go:build !verif
+
+package core
+
+const verifPointHeaderAdded = 0
+
+// verifPoint is a no-op without the verif build tag.
+func (bc *Blockchain) verifPoint(int) {}
